@@ -1,7 +1,8 @@
 """Generator and property-level reference for the virtual file system (C16)."""
 import os
 
-DIRS = ['d1', 'd1/sub', 'd2', 'd2/sub', 'other', 'd1/sub/deep']
+# `d12` and `d1/sub2` are unmapped siblings whose names extend the name of a directory that gets mapped
+DIRS = ['d1', 'd1/sub', 'd2', 'd2/sub', 'other', 'd1/sub/deep', 'd12', 'd1/sub2', 'other2']
 NAMES = ['a.sqf', 'b.hpp', 'c.sqf', 'inc.hpp']
 VIRTS = ['/x', '/x/y', '/addons/mod', '/', '/x/', 'x\\y', '/z', '/x/y/z']
 
@@ -52,7 +53,14 @@ class VfsGen:
                 req = r.choice([v + '//' + rel, v.replace('/', '\\') + '\\' + rel.replace('/', '\\'), ' ' + v + '/' + rel + ' ', v + '/./' + rel,
                                 v[1:] + '/' + rel, v + '/' + rel + '/', v.upper() + '/' + rel, '\t' + v + '/' + rel + '\t ', v + '/' + rel + '\n'])
             elif k == 'physical':
-                rel = r.choice(under) if under else 'd1/a.sqf'
+                # an absolute physical path: inside the mapped directory, or inside a sibling whose name merely begins
+                # with the mapped directory's name (d1 mapped, d12/... requested)
+                sib = [p for p in files if p.startswith(phys) and not p.startswith(phys + '/')]
+                if sib and r.chance(1, 2):
+                    rel = r.choice(sib)
+                    self.note('req:physical-sibling')
+                else:
+                    rel = r.choice(under) if under else 'd1/a.sqf'
                 req = '/$R/' + rel
             elif k == 'outside':
                 req = r.choice(['/$O', v + '/../..//$O', '/$R/../' + 'outside.sqf'])
@@ -61,7 +69,8 @@ class VfsGen:
                 cur = r.choice(under) if under else ''
                 cur_p = cur
                 cur_v = (v + '/' + cur[len(phys) + 1:]) if cur else ''
-                req = r.choice(['a.sqf', 'sub/c.sqf', '../a.sqf', 'inc.hpp', '../../other/a.sqf'])
+                req = r.choice(['a.sqf', 'sub/c.sqf', '../a.sqf', 'inc.hpp', '../../other/a.sqf', '../%s2/a.sqf' % (phys.split('/')[-1]), '../%s2/inc.hpp' % (phys.split('/')[-1]),
+                                '../sub2/b.hpp', '../../d12/a.sqf'])
             kind = r.weighted([('info', 6), ('load', 2), ('exec', 1), ('pre', 1)]) if k != 'relative' else r.weighted([('info', 3), ('inc', 2)])
             reqs.append((kind, cur_v, cur_p, req))
         if len(mappings) == 1 and mappings[0][0] in ('d1', 'd2') and mappings[0][1] not in ('/', ):
@@ -76,6 +85,15 @@ class VfsGen:
             files['%s/nest_b.hpp' % d] = 'gx = 7002;\n'
             reqs.append(('ninc', '', '', v + '/nest_m.hpp'))
             self.note('req:nested-include')
+            # one run, two included files in different directories, each with the same-spelled relative include: each
+            # gets the file that lies beside itself
+            files['%s/nest2_m.hpp' % d] = '#include "sub/one.hpp"\n#include "sub/deep/two.hpp"\n#include "sub/one.hpp"\n'
+            files['%s/sub/one.hpp' % d] = '#include "defs.hpp"\n'
+            files['%s/sub/deep/two.hpp' % d] = '#include "defs.hpp"\n'
+            files['%s/sub/defs.hpp' % d] = 'gx = 7101;\n'
+            files['%s/sub/deep/defs.hpp' % d] = 'gx = 7102;\n'
+            reqs.append(('ninc', '', '', v + '/nest2_m.hpp'))
+            self.note('req:same-name-includes')
         return files, mappings, reqs
 
 
